@@ -63,6 +63,7 @@ func drawDexConfig(r *Rng, cfg *Config) {
 	k["gauge_w"] = []int64{0, 1, 2}[r.Intn(3)]
 	k["n_gauges"] = r.Range(0, 2)
 	k["fee_asset_traded"] = int64(r.Intn(2))
+	k["whale"] = []int64{0, 0, 0, 1}[r.Intn(4)] // one user holds 10^21 of the reward denom
 	k["bare_pairs"] = []int64{0, 0, 1, 1, 2}[r.Intn(5)] // pairs without any pool: pure order book, orders rest and fill piecewise
 }
 
@@ -172,6 +173,9 @@ func setupDex(w *World) {
 			coins = coins.Add(sdk.NewCoin(a.Denom, p.MagUnit.MulRaw(r.Range(10, 1000))))
 		}
 		coins = coins.Add(sdk.NewCoin(p.Reward.Denom, sdk.NewInt(r.Range(1_000_000, 4_000_000_000_000))))
+		if i == 0 && cfg.K("whale") != 0 {
+			coins = coins.Add(sdk.NewCoin(p.Reward.Denom, pow10(21)))
+		}
 		coins = coins.Add(sdk.NewCoin("ucmdx", p.MagUnit.MulRaw(r.Range(10, 1000)).AddRaw(100_000_000_000)))
 		w.Fund(w.Actors[i].Addr, coins)
 	}
@@ -918,6 +922,18 @@ func (w *World) genPoolCreate(r *Rng) *Event {
 	case 2:
 		init = tickDown(minP.Add(maxP).QuoInt64(2), prec)
 	}
+	if r.Intn(3) == 0 && init.GT(minP) && init.LT(maxP) {
+		// what a front-end submits: exactly the base amount the module itself asks for the offered quote amount
+		var need sdk.Int
+		if msg := catch(func() {
+			if pl, err := amm.CreateRangedPool(x, by, minP, maxP, init); err == nil {
+				_, need = pl.Balances()
+			}
+		}); msg == "" && !need.IsNil() && need.IsPositive() && need.LTE(by) {
+			coins = sdk.NewCoins(sdk.NewCoin(pair.QuoteCoinDenom, x), sdk.NewCoin(pair.BaseCoinDenom, need))
+			w.Stats.Probe("dex.gen.ranged_exact_base_amount")
+		}
+	}
 	return w.TxEvent("pool.create_ranged", a, liqtypes.NewMsgCreateRangedPool(pair.AppId, a.Addr, pair.Id, coins, minP, maxP, init))
 }
 
@@ -956,10 +972,16 @@ func (w *World) genGauge(r *Rng, a *Actor, pool dexPool, valid bool) *Event {
 			start = w.Hdr.Time.Add(30 * time.Hour)
 		}
 	}
-	if sdk.NewInt(d).GT(bal) {
+	amt := sdk.NewInt(d)
+	if valid && bal.GT(pow10(20)) && r.Chance(1, 2) {
+		// a whale's gauge: the deposit does not fit into 64 bits (the per-epoch split works on uint64)
+		amt = sdk.NewIntFromUint64(^uint64(0)).AddRaw(r.Range(1, 1_000_000))
+		w.Stats.Probe("dex.gen.gauge_deposit_above_uint64")
+	}
+	if amt.GT(bal) {
 		return nil
 	}
-	msg := rewardstypes.NewMsgCreateGauge(pool.AppId, a.Addr, start, rewardstypes.LiquidityGaugeTypeID, dur, sdk.NewCoin(denom, sdk.NewInt(d)), e)
+	msg := rewardstypes.NewMsgCreateGauge(pool.AppId, a.Addr, start, rewardstypes.LiquidityGaugeTypeID, dur, sdk.NewCoin(denom, amt), e)
 	master := r.Chance(1, 6)
 	msg.Kind = &rewardstypes.MsgCreateGauge_LiquidityMetaData{LiquidityMetaData: &rewardstypes.LiquidtyGaugeMetaData{PoolId: pool.Id, IsMasterPool: master, ChildPoolIds: []uint64{}}}
 	return w.TxEvent("gauge.create", a, msg)
